@@ -62,4 +62,6 @@ def gen():
         rows.append('(%d%%Z, (%d%%nat, %s))' % (sid, spec['np'], name))
     defs.append('Definition gen_site_table : list (Z * (nat * list instr)) :=\n  [%s].\n' % ';\n   '.join(rows))
     return 'bionumpy/{io/strops,io/delimited_buffers,io/file_buffers,encodings/vcf_encoding,arithmetics/intervals,' \
-           'bnpdataclass/lazybnpdataclass,sequence/translate,encoded_array}.py (harness/props/c20.py:SITES)', defs
+           'bnpdataclass/lazybnpdataclass,sequence/translate,encoded_array}.py + round 6: arithmetics/bedgraph, io/buffers/sam, ' \
+           'io/dump_csv, io/matrix_dump, io/multiline_buffer, io/named_text_buffer, io/one_line_buffer, sequence/position_weight_matrix, ' \
+           'streams/*, util/*, variants/consensus, encodings/integer_encoding (harness/props/c20.py:SITES)', defs
